@@ -164,6 +164,11 @@ def score_once(acc, api, t, tstr, taxa, dtype, rows, gap, weights, minima, size,
             got = DP.fitch_down_pass(tr.postorder_node_iter(), state_sets_attr_name=None,
                                      taxon_state_sets_map=m.taxon_state_sets_map(gaps_as_missing=gap),
                                      weights=weights, score_by_character_list=sbc)
+        elif api == "fitch_down_pass[attr]":
+            # the documented call: the state sets are kept on the nodes of a FRESH tree under the default attribute name
+            sbc = []
+            got = DP.fitch_down_pass(tr.postorder_node_iter(), taxon_state_sets_map=m.taxon_state_sets_map(gaps_as_missing=gap),
+                                     weights=weights, score_by_character_list=sbc)
         else:
             raise KeyError(api)
     except Exception as e:
@@ -309,7 +314,7 @@ def _w_types(task):
             w = [0] * ncol
         minima = P.column_minima(t, rows, dtype, gap)
         itax = list(extra) if (extra and rng.random() < 0.5) else []
-        for api in ("parsimony_score", "fitch_down_pass[no_attr]"):
+        for api in ("parsimony_score", "fitch_down_pass[no_attr]", "fitch_down_pass[attr]"):
             key = case_key(api, dtype, gap, P.tree_str(t), rows, w) + ("|internal-taxa=%s" % ",".join(itax) if itax else "")
             acc.case(key, sum(minima) >= 1)
             score_once(acc, api, t, P.tree_str(t), taxa, dtype, rows, gap, w, minima, size=100 + n,
